@@ -1,0 +1,14 @@
+//go:build verif
+
+// Round 7: the package initializer - the name grammar is pinned (until now validName() was "whatever pattern the variable was compiled
+// from": a change of the pattern text passed every check, seeded change C08-r7b). Comment-only file.
+
+package protocol
+
+// init (the synthetic package initializer: runs the `var x = ...` initializers): the regular expression topic and channel names are
+// matched against is compiled from exactly this text - 1..n characters of [.a-zA-Z0-9_-], optionally followed by the lower-case marker
+// `#ephemeral` (the marker nsqd's constructors test with strings.HasSuffix(name, "#ephemeral"): a grammar that accepted another spelling
+// would create durable topics / channels from names that validate only because of their marker).
+//@ func init()
+//@   props C09 C10 C15 C08
+//@   ensures[name-grammar-pinned] patternOf(validTopicChannelNameRegex) == "^[.a-zA-Z0-9_-]+(#ephemeral)?$"
